@@ -66,6 +66,35 @@ def base_locals(f, local):
     return seen
 
 
+def upvar_len_checked(prog, f, coll_local):
+    """closure body indexing a *captured* collection: the length check that guards it sits in the function that creates the closure
+    (`.map_err(|_| format!("..", parts[1]))` after `if parts.len() != 2 { continue }`). The capture is a borrow or a move of the checked
+    value, so the check made before the closure was created still holds when it runs."""
+    if not f.is_closure():
+        return False
+    fields = set()
+    for l in base_locals(f, coll_local):
+        for bb0, kind0, x0 in f.defs().get(l, []):
+            pls = [o["p"] for o in x0.get("o", []) if "p" in o] if kind0 == "stmt" else [a["p"] for a in x0.args if "p" in a]
+            for pl in pls:
+                if pl[0] == 1:
+                    idx = [e for e in pl[1:] if isinstance(e, str) and e.startswith(".") and e[1:].isdigit()]
+                    if idx:
+                        fields.add(int(idx[0][1:]))
+    if not fields:
+        return False
+    for cp in sorted(prog.redges().get(f.path, ())):
+        cf = prog.fns.get(cp)
+        if cf is None:
+            continue
+        for bb, s in cf.stmts():
+            if s.get("k") == "closure" and s.get("closure") == f.path:
+                ops = s.get("o", [])
+                if all(n < len(ops) and "p" in ops[n] and (len_checked(cf, bb, ops[n]["p"][0]) or upvar_len_checked(prog, cf, ops[n]["p"][0])) for n in fields):
+                    return True
+    return False
+
+
 def len_checked(f, bb, coll_local):
     """a dominating comparison on len()/is_empty() of (a view of) the same collection"""
     bases = base_locals(f, coll_local)
@@ -244,6 +273,8 @@ def classify_call(prog, f, c):
             return True, "the whole range (`v[..]`) — cannot be out of bounds"
         if coll is not None and len_checked(f, c.bb, coll):
             return True, "index guarded by a dominating length check on the same collection"
+        if coll is not None and upvar_len_checked(prog, f, coll):
+            return True, "index into a captured collection; the length check dominates the creation of the closure"
         if idx is not None and "p" in idx:
             dep, calls, _ = f.depends_on(idx["p"][0])
             if any(x.name in ("position", "rposition", "binary_search", "iter_position") for x in calls) or _position_through_closures(prog, f, idx["p"][0]):
